@@ -5,6 +5,31 @@ V = os.path.dirname(os.path.dirname(os.path.abspath(__file__)))
 PY = "PYTHONPATH=/repo PYTHONHASHSEED=0 /venv/bin/python"
 
 CHECKS = {
+ "C02": dict(
+   text="Nine theorems: the accept decision of the RWMH and HMC transition models equals u < exp(E_cur - E_prop) with E as the property states; "
+        "state/misfit/counter after accept and reject; accepted counter = number of accepting transitions for every run (induction over the event "
+        "stream, any arithmetic); NaN/+inf proposal energies are never accepted (extended reals with IEEE special-value rules); RWMH proposal form. "
+        "The model is tied to /repo by bit-exact co-execution of complete sample() runs (decisions, states, counter, every oracle call and its "
+        "arguments) and the statement is re-evaluated on per-transition snapshots, incl. reuse of a sampler object.",
+   note="Trusted: Coq kernel, vm_compute, stdlib real axioms (sig_forall_dec, sig_not_dec, functional_extensionality_dep) for the extended-real theorem; "
+        "harness; numpy.exp as a tabulated function graph. Gap between xreal theorems and binary64 execution: rounding and signed zeros only.",
+   technique="Coq proof over transition model + bit-exact co-execution of sample() runs", ref="5/C02"),
+ "C07": dict(
+   text="Five theorems for every sampler, target and event stream: P=k*t proposals store exactly k columns; column j is the state after proposal j*t of "
+        "the unthinned run; thinning changes neither chain nor decisions; every stored misfit is the target's misfit of the stored state. Tie: complete "
+        "runs on both back ends read back through hmclab.Samples, compared bit-exactly with the model and with per-proposal snapshots, the unthinned "
+        "twin run and the metadata equations.",
+   note="Trusted: Coq kernel; harness; h5py/numpy.load store and return float64 bits. Metadata equations (write index, acceptance rate, names) are "
+        "checked on the implementation, not derived from a model of h5py.",
+   technique="Coq proof (induction on the event stream, thinning arithmetic) + co-execution of complete runs", ref="5/C07"),
+ "C16": dict(
+   text="Nine theorems: the update equation with NaN->0, min(a,1) and clamp (extended reals -> closed real formula); step stays finite and positive for "
+        "every acceptance probability in [0,inf] U {NaN} and along every run of either sampler; direction after easy acceptance / rejection; |change| <= "
+        "weight*max(target,1-target) with weights (i+1)^-lr positive, <=1, strictly decreasing; recorded step = generating step and one history entry "
+        "per completed proposal (any arithmetic); learning-rate guard. Tie: bit-exact co-execution of autotuned runs (histories, final step, all calls), "
+        "interrupted runs, guard calls.",
+   note="Trusted: Coq kernel, stdlib real axioms; harness; Python float power for the schedule weight (tabulated with the same expression).",
+   technique="Coq proof (real analysis of the update, run invariant) + bit-exact co-execution", ref="5/C16"),
  "C19": dict(
    text="Five theorems (last entry, misfit-of-model, step equation, never-non-finite, monotone) proved in Coq for every "
         "arithmetic instance, target, start, step, iteration count and flag, by an invariant of the loop; the hand-written "
